@@ -10,6 +10,10 @@
                                                    writes the object that x.f refers to
      SMutV x           the same on a variable
      SLet x e          x = e
+     SLetCopies x      x = [copy.copy(c) for c in ..]   a new list of new objects
+     SAppend x e       x.append(e)                 on such a list
+     SSetElem x f e    x[i].f = e                  writes an element of such a list
+     SMutElem x        x[i].method(..)             the same, any in-place change of an element
    with right-hand sides  RNew (any expression that builds a new object: comprehension, display,
    a | b, a + b, x.copy(), set(), constructor call), RField x f (the object x.f refers to: aliasing),
    RVar x, and RAny (the result of any other call or subscript: some object, old or new, unknown). *)
@@ -20,7 +24,8 @@ Definition var := nat.
 Definition fld := nat.
 Definition loc := nat.
 
-Inductive cell := Blob (k : nat) | Shell (fs : list (fld * loc)).
+(* Coll: a list object whose elements the model tracks (the locations it holds) *)
+Inductive cell := Blob (k : nat) | Shell (fs : list (fld * loc)) | Coll (ls : list loc).
 Definition heap := list cell.
 Definition env := list (var * loc).
 
@@ -30,7 +35,11 @@ Inductive stmt :=
 | SSet (x : var) (f : fld) (e : rhs)
 | SMutF (x : var) (f : fld)
 | SMutV (x : var)
-| SLet (x : var) (e : rhs).
+| SLet (x : var) (e : rhs)
+| SLetCopies (x : var)
+| SAppend (x : var) (e : rhs)
+| SSetElem (x : var) (f : fld) (e : rhs)
+| SMutElem (x : var).
 
 Fixpoint assoc {V} (k : nat) (l : list (nat * V)) : option V :=
   match l with
@@ -67,7 +76,21 @@ Inductive cstep : env * heap -> stmt -> env * heap -> Prop :=
 | CS_mutv : forall e h x l c,
     assoc x e = Some l -> cstep (e, h) (SMutV x) (e, update h l c)
 | CS_let : forall e h x r l h1,
-    ceval r e h l h1 -> cstep (e, h) (SLet x r) ((x, l) :: e, h1).
+    ceval r e h l h1 -> cstep (e, h) (SLet x r) ((x, l) :: e, h1)
+| CS_copies : forall e h x cs,
+    cstep (e, h) (SLetCopies x)
+          ((x, List.length h + List.length cs) :: e,
+           (h ++ cs) ++ [Coll (seq (List.length h) (List.length cs))])
+| CS_append : forall e h x r l h1 lx ls,
+    ceval r e h l h1 -> assoc x e = Some lx -> nth_error h1 lx = Some (Coll ls) ->
+    cstep (e, h) (SAppend x r) (e, update h1 lx (Coll (ls ++ [l])))
+| CS_setelem : forall e h x f r l h1 lx ls le fs,
+    ceval r e h l h1 -> assoc x e = Some lx -> nth_error h1 lx = Some (Coll ls) -> In le ls ->
+    nth_error h1 le = Some (Shell fs) ->
+    cstep (e, h) (SSetElem x f r) (e, update h1 le (Shell ((f, l) :: fs)))
+| CS_mutelem : forall e h x lx ls le c,
+    assoc x e = Some lx -> nth_error h lx = Some (Coll ls) -> In le ls ->
+    cstep (e, h) (SMutElem x) (e, update h le c).
 
 Inductive cexec : env * heap -> list stmt -> env * heap -> Prop :=
 | CX_nil : forall s, cexec s [] s
@@ -102,6 +125,14 @@ Definition aeval (r : rhs) (a : astate) : aval * astate :=
   | RAny => (AOld, a)
   end.
 
+(* "the object id is a list all of whose elements were allocated by this call" is recorded as a fact
+   on the reserved field 0 (which SSet therefore refuses) *)
+Definition coll_fld : fld := 0.
+Definition is_coll (id : nat) (a : astate) : bool :=
+  match lookup_f id coll_fld (afld a) with ANew _ => true | AOld => false end.
+Definition coll_facts (l : list (nat * (fld * aval))) :=
+  filter (fun e => Nat.eqb (fst (snd e)) coll_fld) l.
+
 Definition astep (a : astate) (s : stmt) : option astate :=
   match s with
   | SCopy dst src =>
@@ -110,7 +141,8 @@ Definition astep (a : astate) (s : stmt) : option astate :=
       Some {| aenv := (dst, ANew n) :: aenv a; afld := facts ++ afld a; anext := S n |}
   | SSet x f r =>
       match lookup_a x a with
-      | ANew id => let (v, a1) := aeval r a in
+      | ANew id => if Nat.eqb f coll_fld then None else
+                   let (v, a1) := aeval r a in
                    Some {| aenv := aenv a1; afld := (id, (f, v)) :: afld a1; anext := anext a1 |}
       | AOld => None
       end
@@ -129,6 +161,30 @@ Definition astep (a : astate) (s : stmt) : option astate :=
       end
   | SLet x r => let (v, a1) := aeval r a in
                 Some {| aenv := (x, v) :: aenv a1; afld := afld a1; anext := anext a1 |}
+  | SLetCopies x =>
+      let n := anext a in
+      Some {| aenv := (x, ANew n) :: aenv a; afld := (n, (coll_fld, ANew n)) :: afld a; anext := S n |}
+  | SAppend x r =>
+      match lookup_a x a with
+      | ANew id => if is_coll id a then
+                     let (v, a1) := aeval r a in
+                     match v with ANew _ => Some a1 | AOld => None end
+                   else None
+      | AOld => None
+      end
+  | SSetElem x f r =>
+      match lookup_a x a with
+      | ANew id => if is_coll id a then
+                     let (v, a1) := aeval r a in
+                     Some {| aenv := aenv a1; afld := coll_facts (afld a1); anext := anext a1 |}
+                   else None
+      | AOld => None
+      end
+  | SMutElem x =>
+      match lookup_a x a with
+      | ANew id => if is_coll id a then Some {| aenv := aenv a; afld := []; anext := anext a |} else None
+      | AOld => None
+      end
   end.
 
 Fixpoint safe_from (a : astate) (p : list stmt) : bool :=
